@@ -369,7 +369,7 @@ func (ps *exprParser) parseMul() Expr {
 func (ps *exprParser) parseUnary() Expr {
 	if ps.cur().kind == "op" {
 		switch ps.cur().s {
-		case "!", "-", "^", "*":
+		case "!", "-", "^", "*", "&":
 			op := ps.cur().s
 			ps.p++
 			return &EUn{op, ps.parseUnary()}
